@@ -70,12 +70,12 @@ def stOk (cp : List Nat) : Nat → Nat → Bool
     unfold stLoop stOk
     by_cases hc : next ∈ cp <;> simp [hc, respondActs, ih]
 
-/-- skeleton-level: every command other than `continue` has exactly one `respond` in its skeleton
-(including the one added by the rule of `run`) — cancelled requests included -/
-theorem respondActs_fullPlan (s : Sess) (r : Req) (h : Hint) (hc : r.cmd ≠ .continue_) :
+/-- skeleton-level: every command has exactly one `respond` in its skeleton (including the one added
+by the rule of `run`) — cancelled requests included -/
+theorem respondActs_fullPlan (s : Sess) (r : Req) (h : Hint) :
     ∃ ok, respondActs (fullPlan s r h) = [ok] := by
   unfold fullPlan plan
-  cases hcmd : r.cmd <;> simp only [hcmd] at hc ⊢ <;> try contradiction
+  cases hcmd : r.cmd <;> simp only []
   all_goals
     (repeat' split) <;> simp_all [respondActs, runRule, stepPlan, emitStop, terminateDebuggee, badArgs, query] <;>
       (repeat' split) <;> simp_all [respondActs, runRule]
@@ -196,7 +196,7 @@ theorem lifeRun_append (b : Bool) (a c : List Item) : ∀ st : Life,
 
 /-- messages that leave the monitor in `fresh` -/
 def Msg.plain : Msg → Bool
-  | .event .exited | .event .terminated | .event .initialized => false
+  | .event .exited | .event .terminated => false
   | _ => true
 
 theorem lifeRun_plain (b : Bool) (l : List Msg) (hl : ∀ m ∈ l, m.plain = true) :
@@ -258,17 +258,13 @@ theorem drain_life (b : Bool) (s : Sess) (st : Life) (hi : Inv st s) :
         rfl
       · exact ⟨.fresh, lifeRun_plain b _ (sendAll_plain _), by simp [Inv]⟩
 
-theorem execAct_life (r : Req) (s : Sess) (a : Act) (st : Life) (hi : Inv st s)
+theorem execAct_life (b : Bool) (r : Req) (s : Sess) (a : Act) (st : Life) (hi : Inv st s)
     (ha : hasReset [a] = false) :
-    ∃ st', lifeRun false st ((execAct r s a).2.map Item.msg) = some st' ∧ Inv st' (execAct r s a).1 := by
+    ∃ st', lifeRun b st ((execAct r s a).2.map Item.msg) = some st' ∧ Inv st' (execAct r s a).1 := by
   cases a with
-  | drain => exact drain_life false s st hi
+  | drain => exact drain_life b s st hi
   | resetLatch => simp [hasReset] at ha
   | respond ok =>
-    refine ⟨st, ?_, hi⟩
-    obtain ⟨h1, _⟩ := hi
-    cases st <;> first | rfl | exact absurd rfl h1
-  | sendInitialized =>
     refine ⟨st, ?_, hi⟩
     obtain ⟨h1, _⟩ := hi
     cases st <;> first | rfl | exact absurd rfl h1
@@ -278,15 +274,15 @@ theorem execAct_life (r : Req) (s : Sess) (a : Act) (st : Life) (hi : Inv st s)
     cases st <;> first | rfl | exact absurd rfl h1
   | _ => exact ⟨st, rfl, hi⟩
 
-theorem exec_life (r : Req) (acts : List Act) : ∀ (s : Sess) (st : Life), Inv st s → hasReset acts = false →
-    ∃ st', lifeRun false st ((exec r s acts).2.map Item.msg) = some st' ∧ Inv st' (exec r s acts).1 := by
+theorem exec_life (b : Bool) (r : Req) (acts : List Act) : ∀ (s : Sess) (st : Life), Inv st s → hasReset acts = false →
+    ∃ st', lifeRun b st ((exec r s acts).2.map Item.msg) = some st' ∧ Inv st' (exec r s acts).1 := by
   induction acts with
   | nil => intro s st hi _; exact ⟨st, rfl, hi⟩
   | cons a rest ih =>
     intro s st hi hr
     have ha : hasReset [a] = false := by cases a <;> simp_all [hasReset]
     have hrest : hasReset rest = false := by cases a <;> simp_all [hasReset]
-    obtain ⟨st1, e1, i1⟩ := execAct_life r s a st hi ha
+    obtain ⟨st1, e1, i1⟩ := execAct_life b r s a st hi ha
     obtain ⟨st2, e2, i2⟩ := ih (execAct r s a).1 st1 i1 hrest
     refine ⟨st2, ?_, i2⟩
     simp only [exec, List.map_append, lifeRun_append, e1, Option.bind]
@@ -323,9 +319,9 @@ theorem fullPlan_reset (s : Sess) (r : Req) (h : Hint) :
     (try simp_all [runRule, stepPlan, badArgs, hasReset, terminateDebuggee, query]) <;>
     (try (repeat' split)) <;> (try simp_all [runRule, hasReset])
 
-theorem step_life (s s' : Sess) (r : Req) (h : Hint) (out : List Msg) (st : Life) (hi : Inv st s)
+theorem step_life (b : Bool) (s s' : Sess) (r : Req) (h : Hint) (out : List Msg) (st : Life) (hi : Inv st s)
     (hs : runStep s r h = some (s', out)) :
-    ∃ st', lifeRun false st (Item.req r.cmd :: out.map Item.msg) = some st' ∧ Inv st' s' := by
+    ∃ st', lifeRun b st (Item.req r.cmd :: out.map Item.msg) = some st' ∧ Inv st' s' := by
   unfold runStep at hs
   split at hs
   · injection hs with hs
@@ -333,7 +329,7 @@ theorem step_life (s s' : Sess) (r : Req) (h : Hint) (out : List Msg) (st : Life
     have hs2 : (exec r s (fullPlan s r h)).2 = out := congrArg Prod.snd hs
     rcases fullPlan_reset s r h with hr | ⟨hc, rest, hp, hr⟩
     · -- no reset: the request item leaves the state, or makes it `fresh`
-      have hreq : ∃ st0, lifeStep false st (Item.req r.cmd) = some st0 ∧ Inv st0 s := by
+      have hreq : ∃ st0, lifeStep b st (Item.req r.cmd) = some st0 ∧ Inv st0 s := by
         obtain ⟨h1, h2⟩ := hi
         cases hcmd : r.cmd <;> cases st <;>
           first
@@ -341,15 +337,15 @@ theorem step_life (s s' : Sess) (r : Req) (h : Hint) (out : List Msg) (st : Life
           | exact ⟨_, rfl, ⟨by decide, fun hh => h2 hh⟩⟩
           | exact ⟨_, rfl, ⟨by decide, fun hh => nomatch hh⟩⟩
       obtain ⟨st0, e0, i0⟩ := hreq
-      obtain ⟨st1, e1, i1⟩ := exec_life r (fullPlan s r h) s st0 i0 hr
+      obtain ⟨st1, e1, i1⟩ := exec_life b r (fullPlan s r h) s st0 i0 hr
       refine ⟨st1, ?_, hs1 ▸ i1⟩
       simp only [lifeRun, e0]
       rw [← hs2]; exact e1
-    · have hreq : lifeStep false st (Item.req r.cmd) = some .fresh := by
+    · have hreq : lifeStep b st (Item.req r.cmd) = some .fresh := by
         obtain ⟨h1, _⟩ := hi
         rcases hc with hc | hc <;> rw [hc] <;> cases st <;> first | rfl | exact absurd rfl h1
       have i0 : Inv .fresh { s with terminated := false } := by simp [Inv]
-      obtain ⟨st1, e1, i1⟩ := exec_life r rest { s with terminated := false } .fresh i0 hr
+      obtain ⟨st1, e1, i1⟩ := exec_life b r rest { s with terminated := false } .fresh i0 hr
       have hex : exec r s (fullPlan s r h) = exec r { s with terminated := false } rest := by
         rw [hp]; simp [exec, execAct]
       refine ⟨st1, ?_, ?_⟩
@@ -358,8 +354,8 @@ theorem step_life (s s' : Sess) (r : Req) (h : Hint) (out : List Msg) (st : Life
       · rw [← hs1, hex]; exact i1
   · cases hs
 
-theorem trace_life (hist : List (Req × Hint)) : ∀ (s : Sess) (st : Life), Inv st s →
-    ∃ st', lifeRun false st (trace s hist) = some st' := by
+theorem trace_life (b : Bool) (hist : List (Req × Hint)) : ∀ (s : Sess) (st : Life), Inv st s →
+    ∃ st', lifeRun b st (trace s hist) = some st' := by
   induction hist with
   | nil => intro s st _; exact ⟨st, rfl⟩
   | cons rh rest ih =>
@@ -370,7 +366,7 @@ theorem trace_life (hist : List (Req × Hint)) : ∀ (s : Sess) (st : Life), Inv
     | none => exact ih s st hi
     | some p =>
       obtain ⟨s', out⟩ := p
-      obtain ⟨st1, e1, i1⟩ := step_life s s' r h out st hi hs
+      obtain ⟨st1, e1, i1⟩ := step_life b s s' r h out st hi hs
       obtain ⟨st2, e2⟩ := ih s' st1 i1
       refine ⟨st2, ?_⟩
       have : Item.req r.cmd :: (out.map Item.msg ++ trace s' rest) = (Item.req r.cmd :: out.map Item.msg) ++ trace s' rest := rfl
@@ -436,134 +432,180 @@ theorem iota_append (n : Nat) : ∀ a : Nat, iota a n ++ [a + n] = iota a (n + 1
     rw [e] at h
     simp only [iota, List.cons_append, h]
 
+theorem iota_lt (n : Nat) : ∀ a x : Nat, x ∈ iota a n → a ≤ x := by
+  induction n with
+  | zero => intro a x h; cases h
+  | succ n ih =>
+    intro a x h
+    simp only [iota, List.mem_cons] at h
+    rcases h with rfl | h
+    · exact Nat.le_refl _
+    · have := ih (a + 1) x h; omega
+
+theorem iota_nodup (n : Nat) : ∀ a : Nat, (iota a n).Nodup := by
+  induction n with
+  | zero => intro a; exact List.nodup_nil
+  | succ n ih =>
+    intro a
+    simp only [iota, List.nodup_cons]
+    refine ⟨?_, ih (a + 1)⟩
+    intro h
+    have := iota_lt n (a + 1) a h
+    omega
+
 theorem iota_length (n : Nat) : ∀ a : Nat, (iota a n).length = n := by
   induction n with
   | zero => intro a; rfl
   | succ n ih => intro a; simp [iota, ih]
 
-/-- locked discipline: invariant `wire = [1..k]`, `next = k+1` -/
-theorem foldl_stepLocked (sched : List Nat) : ∀ (s : St) (k : Nat),
-    s.wire.map (·.seq) = iota 1 k → s.next = k + 1 →
-    (sched.foldl stepLocked s).wire.map (·.seq) = iota 1 (k + sched.length) := by
-  induction sched with
-  | nil => intro s k h _; simpa using h
-  | cons w rest ih =>
-    intro s k h hn
-    have := ih (stepLocked s w) (k + 1)
-      (by simp [stepLocked, h, hn]; have := iota_append k 1; rw [Nat.add_comm 1 k] at this; exact this)
-      (by simp [stepLocked, hn])
-    simp only [List.foldl_cons, List.length_cons]
-    rw [this]; congr 1; omega
+/-- invariant of the writers, for EVERY interleaving: the wire reads `1..k`; the counter is `k+1`
+when the transport is free, and when a writer holds the lock it holds the number `k+1` (counter `k+2`) -/
+def LInv (s : St) (k : Nat) : Prop :=
+  s.wire.map (·.seq) = iota 1 k ∧
+    match s.holder with
+    | none => s.next = k + 1
+    | some (_, n) => n = k + 1 ∧ s.next = k + 2
 
-/-- as-found discipline, serial schedules: all writers idle, `wire = [1..k]`, `next = k+1` -/
-def Idle (s : St) (k : Nat) : Prop :=
-  (∀ w, s.pending w = none) ∧ s.wire.map (·.seq) = iota 1 k ∧ s.next = k + 1
+theorem linv_init : LInv {} 0 := ⟨rfl, rfl⟩
 
-theorem step_step_idle (s : St) (k w : Nat) (h : Idle s k) : Idle (step (step s w) w) (k + 1) := by
-  obtain ⟨hp, hw, hn⟩ := h
-  have e1 : step s w = { s with next := s.next + 1, pending := fun v => if v = w then some s.next else s.pending v } := by
-    simp [step, hp w]
-  rw [e1]
-  refine ⟨?_, ?_, ?_⟩
-  · intro v
-    simp only [step, if_pos]
-    by_cases hv : v = w <;> simp [hv, hp]
-  · simp only [step, if_pos, List.map_append, List.map_cons, List.map_nil, hw, hn]
-    have := iota_append k 1; rw [Nat.add_comm 1 k] at this; exact this
-  · simp [step, hn]
-
-theorem foldl_step_serial (sched : List Nat) : ∀ (s : St) (k : Nat), Idle s k → serial sched = true →
-    ∃ k', ((sched.foldl step s).wire.map (·.seq)) = iota 1 k' := by
-  induction sched using serial.induct with
-  | case1 => intro s k h _; exact ⟨k, h.2.1⟩
-  | case2 x =>
-    intro s k h _
-    refine ⟨k, ?_⟩
-    simp [step, h.1 x, h.2.1]
-  | case3 a b rest ih =>
-    intro s k h hs
-    simp only [serial, Bool.and_eq_true, beq_iff_eq] at hs
-    obtain ⟨hab, hr⟩ := hs
-    subst hab
-    simp only [List.foldl_cons]
-    exact ih _ (k + 1) (step_step_idle s k a h) hr
-
-/-- invariant of the as-found writers, for EVERY interleaving -/
-def WInv (s : St) : Prop :=
-  (∀ m ∈ s.wire, 1 ≤ m.seq ∧ m.seq < s.next) ∧
-  (∀ w n, s.pending w = some n → (1 ≤ n ∧ n < s.next) ∧ ∀ m ∈ s.wire, m.seq ≠ n) ∧
-  (∀ w v n, s.pending w = some n → s.pending v = some n → w = v) ∧
-  (s.wire.map (·.seq)).Nodup ∧ 1 ≤ s.next
-
-theorem winv_init : WInv {} := by
-  refine ⟨?_, ?_, ?_, ?_, ?_⟩ <;> simp
-
-theorem winv_step (s : St) (w : Nat) (h : WInv s) : WInv (step s w) := by
-  obtain ⟨h1, h2, h3, h4, h5⟩ := h
+theorem linv_step (s : St) (w k : Nat) (h : LInv s k) : ∃ k', LInv (step s w) k' := by
+  obtain ⟨hw, hh⟩ := h
   unfold step
-  cases hp : s.pending w with
+  cases hold : s.holder with
   | none =>
-    simp only
-    refine ⟨?_, ?_, ?_, h4, by dsimp only; omega⟩
-    · intro m hm; have := h1 m hm; dsimp only at hm ⊢; omega
-    · intro v n hv
-      by_cases hvw : v = w
-      · simp only [hvw, if_pos] at hv
-        injection hv with hv
-        subst hv
-        exact ⟨⟨h5, by dsimp only; omega⟩, fun m hm => by have := h1 m hm; omega⟩
-      · simp only [hvw, if_false] at hv
-        have := h2 v n hv
-        exact ⟨⟨this.1.1, by dsimp only; omega⟩, this.2⟩
-    · intro a b n ha hb
-      by_cases haw : a = w <;> by_cases hbw : b = w
-      · rw [haw, hbw]
-      · simp only [haw, if_pos, hbw, if_false] at ha hb
-        injection ha with ha; subst ha
-        have := (h2 b _ hb).1.2; omega
-      · simp only [haw, if_false, hbw, if_pos] at ha hb
-        injection hb with hb; subst hb
-        have := (h2 a _ ha).1.2; omega
-      · simp only [haw, hbw, if_false] at ha hb
-        exact h3 a b n ha hb
-  | some n =>
-    simp only
-    have hn := h2 w n hp
-    refine ⟨?_, ?_, ?_, ?_, h5⟩
-    · intro m hm
-      rcases List.mem_append.mp hm with hm | hm
-      · exact h1 m hm
-      · simp at hm; subst hm; exact hn.1
-    · intro v k hv
-      by_cases hvw : v = w
-      · simp [hvw] at hv
-      · simp only [hvw, if_false] at hv
-        have hk := h2 v k hv
-        refine ⟨hk.1, ?_⟩
-        intro m hm
-        rcases List.mem_append.mp hm with hm | hm
-        · exact hk.2 m hm
-        · simp at hm; subst hm
-          intro e
-          have e' : n = k := e
-          exact hvw (h3 v w k hv (by rw [← e']; exact hp))
-    · intro a b k ha hb
-      by_cases haw : a = w
-      · simp [haw] at ha
-      · by_cases hbw : b = w
-        · simp [hbw] at hb
-        · simp only [haw, hbw, if_false] at ha hb
-          exact h3 a b k ha hb
-    · simp only [List.map_append, List.map_cons, List.map_nil]
-      refine List.nodup_append.mpr ⟨h4, by simp, ?_⟩
-      intro x hx y hy
-      simp at hy; subst hy
-      obtain ⟨m, hm, rfl⟩ := List.mem_map.mp hx
-      exact hn.2 m hm
+    rw [hold] at hh
+    exact ⟨k, hw, by simp only; omega⟩
+  | some p =>
+    obtain ⟨v, n⟩ := p
+    rw [hold] at hh
+    simp only at hh
+    by_cases hv : v = w
+    · refine ⟨k + 1, ?_, ?_⟩
+      · simp only [hv, if_true, List.map_append, List.map_cons, List.map_nil, hw, hh.1]
+        have := iota_append k 1; rw [Nat.add_comm 1 k] at this; exact this
+      · simp only [hv, if_true]; omega
+    · refine ⟨k, ?_, ?_⟩
+      · simp only [hv, if_false]; exact hw
+      · simp only [hv, if_false, hold]; exact hh
 
-theorem winv_run (sched : List Nat) : ∀ s, WInv s → WInv (sched.foldl step s) := by
+theorem linv_run (sched : List Nat) : ∀ (s : St) (k : Nat), LInv s k → ∃ k', LInv (sched.foldl step s) k' := by
   induction sched with
+  | nil => intro s k h; exact ⟨k, h⟩
+  | cons w r ih =>
+    intro s k h
+    obtain ⟨k1, h1⟩ := linv_step s w k h
+    exact ih _ k1 h1
+
+/-! #### the latch shared with the forwarders -/
+
+/-- a session message written while the latch was set -/
+def isLatched (m : Nat × Bool) : Bool := m.1 = 0 && m.2
+
+theorem quiet_append_session (x : Nat × Bool) (hx : x.1 = 0) : ∀ l : List (Nat × Bool),
+    quietAfterLatched l = true → quietAfterLatched (l ++ [x]) = true := by
+  intro l
+  induction l with
+  | nil => intro _; simp [quietAfterLatched]
+  | cons m r ih =>
+    intro h
+    obtain ⟨w, b⟩ := m
+    simp only [List.cons_append, quietAfterLatched] at h ⊢
+    split
+    · rename_i hc
+      rw [if_pos hc] at h
+      simp only [List.all_append, h, List.all_cons, List.all_nil, Bool.and_true, Bool.true_and]
+      simpa using hx
+    · rename_i hc
+      rw [if_neg hc] at h
+      exact ih h
+
+theorem quiet_append_unlatched (x : Nat × Bool) : ∀ l : List (Nat × Bool),
+    (∀ m ∈ l, isLatched m = false) → quietAfterLatched (l ++ [x]) = true := by
+  intro l
+  induction l with
+  | nil => intro _; simp [quietAfterLatched]
+  | cons m r ih =>
+    intro h
+    obtain ⟨w, b⟩ := m
+    have hm : isLatched (w, b) = false := h (w, b) (List.mem_cons_self ..)
+    have hr : ∀ m ∈ r, isLatched m = false := fun m hm => h m (List.mem_cons_of_mem _ hm)
+    simp only [List.cons_append, quietAfterLatched]
+    have hc : ¬ ((decide (w = 0) && b) = true) := by simpa [isLatched] using hm
+    rw [if_neg hc]
+    exact ih hr
+
+/-- invariant, for EVERY interleaving: the wire is quiet after a latched session message, and once there
+is one the latch is set and no forwarder is about to write -/
+def QInv (s : LSt) : Prop :=
+  quietAfterLatched s.wire = true ∧
+    ((∃ m ∈ s.wire, isLatched m = true) →
+      s.latch = true ∧ ∀ v go, s.holder = some (v, go) → go = true → v = 0)
+
+theorem qinv_init : QInv {} := by
+  refine ⟨rfl, ?_⟩
+  rintro ⟨m, hm, _⟩
+  cases hm
+
+theorem qinv_step (s : LSt) (a : LAct) (h : QInv s) : QInv (lstep s a) := by
+  obtain ⟨hq, hj⟩ := h
+  cases a with
+  | setLatch =>
+    refine ⟨hq, fun hex => ⟨rfl, (hj hex).2⟩⟩
+  | lock w =>
+    unfold lstep
+    cases hh : s.holder with
+    | some p => simp only; exact ⟨hq, fun hex => hj hex⟩
+    | none =>
+      simp only
+      refine ⟨hq, fun hex => ⟨(hj hex).1, ?_⟩⟩
+      intro v go hv hgo
+      have hl := (hj hex).1
+      simp only [Option.some.injEq, Prod.mk.injEq] at hv
+      obtain ⟨rfl, rfl⟩ := hv
+      simpa [hl] using hgo
+  | write w =>
+    unfold lstep
+    cases hh : s.holder with
+    | none => simp only; exact ⟨hq, fun hex => hj hex⟩
+    | some p =>
+      obtain ⟨v, go⟩ := p
+      simp only
+      by_cases hv : v = w
+      · rw [if_pos hv]
+        cases go with
+        | false =>
+          refine ⟨hq, fun hex => ⟨(hj hex).1, ?_⟩⟩
+          intro v' go' hv'
+          cases hv'
+        | true =>
+          simp only [if_true]
+          by_cases hex : ∃ m ∈ s.wire, isLatched m = true
+          · have hw0 : w = 0 := by rw [← hv]; exact (hj hex).2 v true hh rfl
+            refine ⟨quiet_append_session _ (by simpa using hw0) _ hq, fun _ => ⟨(hj hex).1, ?_⟩⟩
+            intro v' go' hv'
+            cases hv'
+          · have hun : ∀ m ∈ s.wire, isLatched m = false := by
+              intro m hm
+              cases hl : isLatched m with
+              | false => rfl
+              | true => exact absurd ⟨m, hm, hl⟩ hex
+            refine ⟨quiet_append_unlatched _ _ hun, ?_⟩
+            rintro ⟨m, hm, hml⟩
+            refine ⟨?_, ?_⟩
+            · rcases List.mem_append.mp hm with hm | hm
+              · rw [hun m hm] at hml; cases hml
+              · simp only [List.mem_singleton] at hm
+                subst hm
+                simp only [isLatched, Bool.and_eq_true, decide_eq_true_eq] at hml
+                exact hml.2.2
+            · intro v' go' hv'
+              cases hv'
+      · rw [if_neg hv]
+        exact ⟨hq, fun hex => hj hex⟩
+
+theorem qinv_run (acts : List LAct) : ∀ s, QInv s → QInv (acts.foldl lstep s) := by
+  induction acts with
   | nil => intro s h; exact h
-  | cons w r ih => intro s h; exact ih _ (winv_step s w h)
+  | cons a r ih => intro s h; exact ih _ (qinv_step s a h)
 
 end BsVerif.Dap.Writer
